@@ -50,7 +50,8 @@ def removeNs : Nat → NsHeap → Nat → String → Option Nat → NsHeap
 /-- namespace part of `Node.add_child` (node.py:181-186), after the child was appended -/
 def attachNs (fuel : Nat) (H : NsHeap) (par c : Nat) : NsHeap :=
   let H0 := { H with kids := fun a => if a = par then H.kids par ++ [c] else H.kids a }
-  if dictEq (H0.nsmapOf par) (H0.nsmapOf c) then H0.setNs c (H0.ns par)
+  -- `self.nsmap == child.nsmap and list(self.nsmap) == list(child.nsmap)`: the same bindings in the same key order
+  if H0.nsmapOf par = H0.nsmapOf c then H0.setNs c (H0.ns par)
   else (H0.nsmapOf par).foldl (fun Hc kv =>
     if (Hc.nsmapOf c).has kv.1 then Hc else addNs fuel Hc c kv.1 kv.2 none) H0
 
